@@ -40,7 +40,7 @@ CHECKS = {
     note="Schedules are delivered by the harness's scripted AsyncRead; real reactors are covered by C11."),
  "C06": dict(
     level="exploration", design="2/C06",
-    technique="runtime monitor: invariant on the scripted source's read log (bytes delivered at return == offset of end-of-attributes tag + 1) plus differential result check across fragmentations",
+    technique="runtime monitor: invariant on the scripted source's read log (bytes delivered at return == offset of end-of-attributes tag + 1) plus differential result check across fragmentations (each parser against its own unfragmented result)",
     text="Four entry points (blocking/async x parse/parse_parts) are run per (message, payload, schedule). The scripted source implements plain and native vectored reads, and honours the full requested size in 'whole' mode, so any layer that reads ahead over-consumes and is seen in the log; other schedules go down to 1-byte reads, Interrupted before every read (blocking), Pending with immediate/deferred wake (async) and all 2^(n-1) compositions for short messages. Checked (a zero-length read on the payload first): position at return, the reader from parse_parts yields exactly the rest, payload byte-identical (quick up to 2.3 MB i.e. beyond 2^20, thorough up to 17 MB i.e. beyond 2^24, incl. payloads that are themselves IPP messages); the hand-enumerated shapes with every boundary length (incl. 32767/32768) run as a deterministic prefix, result equal to the unfragmented parse.",
     note="End-tag offset computed by the reference decoder. Trusted: scripted source and log."),
  "C07": dict(
@@ -77,7 +77,7 @@ CHECKS = {
  "C15": dict(
     level="exploration", design="2/C15",
     technique="runtime cost monitoring on deterministic step measures: counting global allocator (bytes, calls) and cachegrind instruction counts over doubling input families; incremental-ratio oracle",
-    text="31 doubling families plus a hash-flood family (nesting with/without member names and with multi-valued members, set width with one tag, with eight alternating tags at top level and inside a collection member, and with distinct keyword strings, set of collections, one wide collection followed by many small ones, thousands of attributes or members sharing one or three names, a wide set led by thousands of no-value entries, long text / keyword / text-with-language values, a long run of other groups followed by as many operation-group delimiters, attribute/group/member count in ascending, descending and shuffled name order, value/name length, invalid-UTF-8 names and values, four malformed floods), both parsers, sizes 2 KiB to 256 KiB (thorough 1 MiB) for the allocation measure and 4 KiB to 64 KiB (thorough 1 MiB) under cachegrind. With a logger installed that takes every level, the volume the library formats into log records is a third step measure (11 families). Growing reallocs count with their full requested size. Growth per doubling is 2 x the marginal cost per input byte of the last doubling over the steepest marginal cost of any earlier doubling (where marginal cost never falls this is (c(4n)-c(2n))/(c(2n)-c(n)): n log n stays near 2, quadratic gives 4); two doublings in a row above 2.6 are a violation (one alone is a suspicion the next doubling, taken even beyond the size cap, confirms or clears, so a one-off step between buffering regimes is not mistaken for super-linear cost), as is allocated bytes > 256 KiB + 1024 n. Wall clock is never a verdict; a series stops at its first violation so a quadratic tree is reported at KiB sizes within seconds.",
+    text="34 doubling families plus a hash-flood family (names with ASCII capitals and of mixed character classes for attributes and members; nesting with/without member names and with multi-valued members, set width with one tag, with eight alternating tags at top level and inside a collection member, and with distinct keyword strings, set of collections, one wide collection followed by many small ones, thousands of attributes or members sharing one or three names, a wide set led by thousands of no-value entries, long text / keyword / text-with-language values, a long run of other groups followed by as many operation-group delimiters, attribute/group/member count in ascending, descending and shuffled name order, value/name length, invalid-UTF-8 names and values, four malformed floods), both parsers, sizes 2 KiB to 256 KiB (thorough 1 MiB) for the allocation measure and 4 KiB to 64 KiB (thorough 1 MiB) under cachegrind. With a logger installed that takes every level, the volume the library formats into log records is a third step measure (11 families). Growing reallocs count with their full requested size. Growth per doubling is 2 x the marginal cost per input byte of the last doubling over the steepest marginal cost of any earlier doubling (where marginal cost never falls this is (c(4n)-c(2n))/(c(2n)-c(n)): n log n stays near 2, quadratic gives 4); two doublings in a row above 2.6 are a violation (one alone is a suspicion the next doubling, taken even beyond the size cap, confirms or clears, so a one-off step between buffering regimes is not mistaken for super-linear cost), as is allocated bytes > 256 KiB + 1024 n. Wall clock is never a verdict; a series stops at its first violation so a quadratic tree is reported at KiB sizes within seconds.",
     note="Instruction counts include process start-up and input generation (linear, cancelled by taking increments). Only the families listed are covered."),
  "C16": dict(
     level="exploration", design="2/C16",
@@ -109,7 +109,7 @@ CHECKS = {
  "C12": dict(
     level="exploration", design="2/C12",
     technique="runtime monitoring of a complete configuration matrix against a loopback rustls peer with freshly generated CAs; oracle on send() outcome and on decrypted bytes seen by the peer application (exhaustive: true)",
-    text="The finite matrix {blocking, async} x {native-tls, rustls} x ignore flag {unset, false, true} x extra root {none, correct PEM, correct DER, correct PEM with CRLF line endings, correct PEM behind its openssl text dump, unrelated} x server certificate {valid, wrong host, expired, self-signed, unknown CA} x a second, tiny Ed25519 root family (DER shorter than 256 bytes and ending in a 0x0a octet) and a leaf that expired seconds before the run and a third root whose PEM body consists of full 64-character lines only, with a leaf under it = 864 cells on the two uniform builds, plus the two mixed-backend builds (blocking native-tls + async rustls, blocking rustls + async native-tls: a 36-cell sub-matrix each in quick, the full matrix in thorough), the target spelled ipps:// or https:// (quick: one spelling per cell chosen by cell hash and seed; thorough: both) is executed completely on every run (four harness builds: both clients on native-tls, both on rustls, and the two mixed feature sets). Builder calls are issued in varying orders with earlier values of the ignore flag. A cell must accept exactly when the caller opted out or supplied the correct root for a valid leaf; in every rejected cell the peer application must not have received a single decrypted byte. Client-reuse sequences: one client object sends to a valid peer, which announces Connection: close and is then restarted on the same port with an expired / wrong-host / valid certificate (new TLS configuration: a kept-alive connection or a resumed session - both continuations of the authenticated exchange - are not on offer); the second send must be refused / refused / accepted. Thorough repeats the matrix against TLS 1.2-only and 1.3-only peers.",
+    text="The finite matrix {blocking, async} x {native-tls, rustls} x ignore flag {unset, false, true} x extra root {none, correct PEM, correct DER, correct PEM with CRLF line endings, correct PEM behind its openssl text dump, unrelated} x server certificate {valid, wrong host, expired, self-signed, unknown CA} x a second, tiny Ed25519 root family (DER shorter than 256 bytes and ending in a 0x0a octet) and a leaf that expired seconds before the run and a third root whose PEM body consists of full 64-character lines only, with a leaf under it = 864 cells on the two uniform builds, plus the two mixed-backend builds (blocking native-tls + async rustls, blocking rustls + async native-tls: a 36-cell sub-matrix each in quick, the full matrix in thorough), the target spelled ipps:// or https:// (quick: one spelling per cell chosen by cell hash and seed; thorough: both) and its host written as localhost or as the IP literal 127.0.0.1 (one per cell by hash and seed; localhost leaves carry dNSName and iPAddress SANs, the wrong-host leaf matches neither) is executed completely on every run (four harness builds: both clients on native-tls, both on rustls, and the two mixed feature sets). Builder calls are issued in varying orders with earlier values of the ignore flag. A cell must accept exactly when the caller opted out or supplied the correct root for a valid leaf; in every rejected cell the peer application must not have received a single decrypted byte. Client-reuse sequences: one client object sends to a valid peer, which announces Connection: close and is then restarted on the same port with an expired / wrong-host / valid certificate (new TLS configuration: a kept-alive connection or a resumed session - both continuations of the authenticated exchange - are not on offer); the second send must be refused / refused / accepted. Thorough repeats the matrix against TLS 1.2-only and 1.3-only peers.",
     note="Certificates are generated with the openssl CLI at check time; trust decisions are those of the OpenSSL / rustls versions in this image."),
  "C18": dict(
     level="exploration", design="2/C18",
